@@ -287,6 +287,58 @@ func c01NestCases() []c01Run {
 
 var c01NestList = c01NestCases()
 
+// ---- hostile values: cyclic, shared and aliased structures handed to every operation that walks a value
+
+var c01ValueOps = []string{
+	"print v == w", "print v != w", "print v == v", "print [v] == [w]", "print {k: v} == {k: w}", "print v < w", "print v <= v",
+	"print [w].contains(v)", "print v.contains(w)", "print [1, v, 2].contains(2)", "print v.contains(v)",
+	"print json(v)", "print v", "print v, w", "printf('%v|', v)", "printf('%30v|', v)", "printf('%s', v)",
+	"print [v, w].sort()", "print v.sort()", "print [w, 3, v, 'a', null].sort()",
+	"print match (v) { [x, y] => 'pair', other => 'other' }", "print match (v) { [1, [1, q]] => q, {n: 1} => 'obj', other => 'other' }", "print match ([v, w]) { [x, y] => x == y }",
+	"for (k, x in v) { print k }", "for (x in v) { for (y in x) { n++ } } print n", "for (x in v) { v = 1 } print v",
+	"print v + ''", "print '' + v + w", "print v ~ 'x'", "print 'x' ~ v", "print -v", "print !v", "v++; print v", "v += w; print v", "print v * 2",
+	"print v.length()", "print v.pluck('n')", "print v.pluck('self', 'n')", "print v.join(',')", "print [v, w].join('-')", "print v.keys()", "print v.values()",
+	"v.push(v); print v.length()", "v.pop(); print v", "x = v.popfirst(); print x", "v.push(w); w.push(v); print v == w",
+	"print v is array, v is object, v is string", "o2 = {}; o2[v] = 1; print o2", "print v[v]", "print 'abc'[v]", "print v[0][0][0][0][0][0]", "print v.self.self.self.n",
+	"v[5] = v; print v.length()", "v.k.k.k = v; print v.k.k.k == v", "$ = v; print $", "print [v].pluck(0)", "u = v; u[0] = 7; print v == u",
+	"printf(v)", "print split(v, v)", "print json(json(v))", "print v.split(',')", "print 'a,b'.split(v)", "exit", "print [[v]] == [[w]], [[v]] == [[v]]",
+}
+
+var c01AliasProgs = []string{
+	"BEGIN { a = [1, 2, 3]; b = a; b.pop(); for (x in a) { print x } print a, json(a), a.length(), a == b }",
+	"BEGIN { a = [1, 2, 3]; b = a; b.pop(); b.pop(); print a[2], a[1], a; a.push(9); print a, b }",
+	"BEGIN { a = [1, 2, 3]; b = a; b.popfirst(); print a, b, json(a), a.sort(), a.contains(3), a == b, [a] == [b] }",
+	"BEGIN { a = [[1], [2], [3]]; b = a; b.pop(); print a[2][0]; a[2].push(4); print json(a), json(b) }",
+	"function f(x) { x.pop(); x.pop(); return x } BEGIN { a = [1, 2, 3]; c = f(a); print a, c; for (i, x in a) { print i, x } print a.join('-') }",
+	"BEGIN { a = [1, 2, 3]; o = {k: a}; o.k.pop(); print a, o, json(a); a.pop(); print o, o.k.length(), o.k[1] }",
+	"BEGIN { a = []; b = a; for (i = 0; i < 40; i++) { a.push(i); if (i % 3 == 0) { b.pop() } } print a, b, json(b) }",
+	"BEGIN { a = [1, 2, 3, 4]; b = a; while (b.length() > 0) { b.pop() } print a, a.length(), json(a), a.sort(), a == [] }",
+	"BEGINFILE { all = $ } { all.popfirst() } ENDFILE { print $, all, json($) } END { print all }",
+	"BEGINFILE { keep = $; keep.pop(); keep.pop() } { print $ } END { print keep, json(keep) }",
+	"{ t = $; t.pop(); print $, t; for (x in $) { print x } }",
+	"BEGIN { a = [1, 2, 3]; for (x in a) { a.pop(); print x, a } print a }",
+	"BEGIN { a = [1, 2, 3]; for (i, x in a) { a.popfirst(); print i, x, a } print a }",
+	"BEGIN { a = [3, 1, 2]; b = a; b.pop(); print a.sort(), b.sort(), a.contains(2), b.contains(2), printf('%v %v', a, b) }",
+	"BEGIN { a = [1, 2, 3]; b = [a, a]; a.pop(); print b, json(b), b[0] == b[1], b.pluck(2), b.pluck(1) }",
+}
+
+func c01ValueCases() []c01Run {
+	var out []c01Run
+	for _, sh := range shapeTable() {
+		mk := &Func{Name: "mk", Body: &Block{Stmts: append(append([]Stmt{}, sh.build...), &Return{X: V("v")})}}
+		head := Canon(&Program{Items: []any{mk}})
+		for _, op := range c01ValueOps {
+			out = append(out, c01Run{prog: head + " BEGIN { v = mk(); w = mk(); " + op + "; print 'end' }", name: "value-op:" + sh.name + ":" + op})
+		}
+	}
+	for _, p := range c01AliasProgs {
+		out = append(out, c01Run{prog: p, input: []byte("[1, 2, 3]\n[[4], 5, 6, 7]"), name: "alias-history:" + p})
+	}
+	return out
+}
+
+var c01ValueList = c01ValueCases()
+
 // ---- sampled
 
 func c01Sampled(c *Case, j int) {
@@ -390,7 +442,7 @@ func c01Sampled(c *Case, j int) {
 }
 
 func c01Cases(tier string) int {
-	n := c01E1 + len(c01NestList)
+	n := c01E1 + len(c01NestList) + len(c01ValueList)
 	if tier == "thorough" {
 		return n + 2000000
 	}
@@ -429,21 +481,25 @@ func c01Run_(c *Case) {
 		os.WriteFile(filepath.Join(c.env.Scratch, "current-nesting-case.txt"), []byte(r.name+"\n"+r.prog), 0o644)
 		// these programs terminate by construction (recursion limit x nesting): give them a budget they cannot exhaust
 		c01CheckB(c, r, false, len(r.prog) < 30000, r.name, 2000000000)
+	case i < c01E1+len(c01NestList)+len(c01ValueList):
+		r := c01ValueList[i-c01E1-len(c01NestList)]
+		c.Count("hostile_value_programs")
+		c01CheckB(c, r, false, true, r.name, 200000)
 	default:
-		c01Sampled(c, i-c01E1-len(c01NestList))
+		c01Sampled(c, i-c01E1-len(c01NestList)-len(c01ValueList))
 	}
 }
 
 func init() {
 	register(&Prop{
 		ID: "C01", Level: "exploration",
-		Rule:          "outcome classification only (no model): every run must end as ok / syntax / runtime / json; a recovered panic, a control-flow sentinel or any other error value, the death of the worker process, and for the binary a signal, a Go trace on stderr or a non-zero status without diagnostic are violations. Enumerated: {next, exit, break, continue, return, return v} x 16 placements (BEGIN, END, BEGINFILE, ENDFILE, pattern body, pattern expression via a match block, function called from each of the five rule kinds, match block in BEGIN / pattern rule / function, -r selector via a match block alone and after a plain selector) x {plain, while, for, for-in, nested for-in, nested if} x 4 inputs, all also through the binary; 28 nestable constructs nested 1000 / 8000 / as deep as 64 KiB allows, and 6 of them inside a self-recursive function (recursion x nesting). Sampled: whole-grammar random programs in random layouts, token-level mutations, byte-level mutations of these and of the repository's fuzz corpus, raw bytes; hostile inputs (JSONL, truncated, stray closers, nesting to 20000, garbage, empty); generated / mutated / garbage selectors; EvalExpression on JSON-typed roots; fuzzing flag on and off; step budget 50000 (budget-exhausted runs are inconclusive). Non-trivial = at least 3 interpreter steps executed (hook) or a syntax error in a text of >= 10 bytes; distinct by hash of program+selectors+input.",
+		Rule:          "outcome classification only (no model): every run must end as ok / syntax / runtime / json; a recovered panic, a control-flow sentinel or any other error value, the death of the worker process, and for the binary a signal, a Go trace on stderr or a non-zero status without diagnostic are violations. Enumerated: {next, exit, break, continue, return, return v} x 16 placements (BEGIN, END, BEGINFILE, ENDFILE, pattern body, pattern expression via a match block, function called from each of the five rule kinds, match block in BEGIN / pattern rule / function, -r selector via a match block alone and after a plain selector) x {plain, while, for, for-in, nested for-in, nested if} x 4 inputs, all also through the binary; 28 nestable constructs nested 1000 / 8000 / as deep as 64 KiB allows, and 6 of them inside a self-recursive function (recursion x nesting); 22 cyclic / shared shapes (built twice) x 62 operations that walk a value (comparison, contains, sort, match, iteration, rendering, arithmetic, member chains, stores into itself) and 15 histories that shrink an array through one of two references and then walk it through the other, all also through the binary. Sampled: whole-grammar random programs in random layouts, token-level mutations, byte-level mutations of these and of the repository's fuzz corpus, raw bytes; hostile inputs (JSONL, truncated, stray closers, nesting to 20000, garbage, empty); generated / mutated / garbage selectors; EvalExpression on JSON-typed roots; fuzzing flag on and off; step budget 50000 (budget-exhausted runs are inconclusive). Non-trivial = at least 3 interpreter steps executed (hook) or a syntax error in a text of >= 10 bytes; distinct by hash of program+selectors+input.",
 		NumCases:      c01Cases,
 		Run:           c01Run_,
 		MinConclusive: func(tier string) int { return 20000 },
 		Chunk:         func(tier string) int { return 400 },
 		Exhaustive: func(tier string) string {
-			return "control-flow signal x placement x loop context x input matrix (2304 cells)"
+			return "control-flow signal x placement x loop context x input matrix (2304 cells), nesting table, shape x operation table"
 		},
 		Assumptions: []string{"program texts up to 64 KiB", "memory exhaustion by accumulated allocation is out of scope: a worker that hits its address-space limit with an out-of-memory signature is inconclusive", "the -dbg-ast / -dbg-lex flags are out of scope"},
 	})
